@@ -38,6 +38,18 @@ def tokref (d : Bytes) : String :=
   let t22 := Gen.Token.TOKEN_2022_ID
   s!"TA={fmtRefAcct (unpackAccount d)} TM={fmtRefMint (unpackMint d)} XA={fmtRefAcct (t22UnpackAccount d)} XM={fmtRefMint (t22UnpackMint d)} GA1={fmtAcct (genericAccount d t)} GM1={fmtMint (genericMint d t)} GA2={fmtAcct (genericAccount d t22)} GM2={fmtMint (genericMint d t22)}"
 
+def fmtOpt {α} (f : α → String) : Res (Option α) → String
+  | .panic => "panic"
+  | .err _ => "err"
+  | .ok none => "~"
+  | .ok (some x) => f x
+
+/-- the ten trait-level checked getters: `token::` then `token_2022::` implementors -/
+def tokget (d : Bytes) : String :=
+  let one (t22 : Bool) :=
+    s!"{fmtOpt Hex.ofBytes (getAccountMint t22 d)}:{fmtOpt Hex.ofBytes (getAccountOwner t22 d)}:{fmtOpt toString (getAccountAmount t22 d)}:{fmtOpt toString (getMintSupply t22 d)}:{fmtOpt (fun (b : UInt8) => toString b.toNat) (getMintDecimals t22 d)}"
+  s!"T={one false} X={one true}"
+
 def handle (toks : List String) : Option String :=
   match toks with
   | ["tok", d, p] => do
@@ -46,6 +58,9 @@ def handle (toks : List String) : Option String :=
     pure (tok d p)
   | ["tokconst"] =>
     pure s!"ids={Hex.ofBytes Gen.Token.TOKEN_ID},{Hex.ofBytes Gen.Token.TOKEN_2022_ID} acc={Gen.Token.SPL_TOKEN_ACCOUNT_LENGTH} mint={Gen.Token.SPL_TOKEN_MINT_LENGTH} native={Hex.ofBytes Gen.Token.NATIVE_MINT_ID}:{Hex.ofBytes Gen.Token.NATIVE_MINT_ACCOUNT_DATA}"
+  | ["tokget", d] => do
+    let d ← Hex.toBytes d
+    pure (tokget d)
   | ["tokref", d] => do
     let d ← Hex.toBytes d
     pure (tokref d)
